@@ -28,7 +28,14 @@ def check_run(sc):
     so = sys.stdout
     sys.stdout = io.StringIO()
     try:
+        if sc.get("prior_bc"):
+            # an earlier model of the same process, configured with other boundary conditions and set up: nothing of it may reach the model under test
+            m0, _ = HD.build(dict(sc, bc=sc["prior_bc"], bc_default=[]))
+            m0.setup()
+            out.label("after_prior_model")
         m, therm = HD.build(sc)
+        if sc.get("bc_default"):
+            out.label("default_boundaries")
         els = sc["elements"][1:]
         N = sc["N"]
         minC = m.constraints.minComposition
@@ -207,6 +214,14 @@ def _scenario(draw, cap=150):
         sc["cache"] = draw(st.booleans())
     if draw(st.integers(0, 3)) == 3:
         sc["hash_s"] = draw(st.integers(1, 8))
+    closed = [e for e in els[1:] if bc[e] == [FLUX, 0.0, FLUX, 0.0]]
+    if closed and draw(st.booleans()):
+        sc["bc_default"] = closed           # closed boundaries left to the model's defaults instead of being set explicitly
+    if draw(st.integers(0, 2)) == 2:
+        sc["prior_bc"] = {e: [COMP, draw(st.floats(0.02, hi)), draw(st.sampled_from([FLUX, COMP])), draw(st.floats(0.02, hi)) * 1e-9] for e in els[1:]}
+        for e in els[1:]:
+            if sc["prior_bc"][e][2] == COMP:
+                sc["prior_bc"][e][3] = draw(st.floats(0.02, hi))
     return sc
 
 
